@@ -414,6 +414,7 @@ pub fn failures_for(prop: &str, case: &Case, stats: Option<&Stats>, nontrivial: 
     }
 }
 
+#[derive(Clone)]
 pub struct CheckOutcome {
     pub violation: Option<(String, String)>,
     pub inconclusive: Option<String>,
@@ -422,7 +423,9 @@ pub struct CheckOutcome {
 pub fn run_ls_check(chk: &LsCheck, tier: &str, seed: u64, stats: &Stats) -> CheckOutcome {
     let n = if tier_is_thorough(tier) { chk.thorough } else { chk.quick };
     let harness_err: parking_lot::Mutex<Option<String>> = parking_lot::Mutex::new(None);
-    let res = run_prop(|| case_strategy(&chk.profile), n, seed, 16, stats, |case| match failures_for(chk.id, case, Some(stats), chk.nontrivial) {
+    let as_prop: String = std::env::var("VERIF_AS").unwrap_or_else(|_| chk.id.to_string());
+    let as_prop: &str = &as_prop;
+    let res = run_prop(|| case_strategy(&chk.profile), n, seed, 16, stats, |case| match failures_for(as_prop, case, Some(stats), chk.nontrivial) {
         Err(h) => {
             *harness_err.lock() = Some(h);
             Ok(())
@@ -439,7 +442,7 @@ pub fn run_ls_check(chk: &LsCheck, tier: &str, seed: u64, stats: &Stats) -> Chec
     match res.failure {
         None => CheckOutcome { violation: None, inconclusive: None },
         Some((case, msg)) => {
-            let (case, msg) = minimize_case(chk.id, case, msg);
+            let (case, msg) = minimize_case(as_prop, case, msg);
             let path = write_replay(chk.id, "lockstep", &case, &msg);
             CheckOutcome { violation: Some((msg, path)), inconclusive: None }
         }
@@ -510,4 +513,126 @@ pub fn minimize_case(prop: &str, mut case: Case, mut msg: String) -> (Case, Stri
         }
     }
     (case, msg)
+}
+
+// ------------------------------------------------------------------------------------------
+// component (E4) checks
+// ------------------------------------------------------------------------------------------
+
+use crate::comp::{self, CompFeats};
+use proptest::strategy::Strategy;
+
+pub fn run_comp<S, M>(
+    prop: &str,
+    engine: &str,
+    mk: M,
+    f: fn(&S::Value) -> Result<CompFeats, String>,
+    n: u32,
+    seed: u64,
+    stats: &Stats,
+) -> CheckOutcome
+where
+    S: Strategy,
+    M: Fn() -> S + Sync,
+    S::Value: Clone + Send + std::fmt::Debug + serde::Serialize + std::hash::Hash,
+{
+    let harness_err: parking_lot::Mutex<Option<String>> = parking_lot::Mutex::new(None);
+    let res = run_prop(mk, n, seed, 16, stats, |case| match f(case) {
+        Err(m) if m.contains("HARNESS") => {
+            *harness_err.lock() = Some(m);
+            Ok(())
+        }
+        Ok(feats) => {
+            stats.case(hash_of(&(engine, case)), feats.nontrivial, || json!({"engine": engine, "case": case}));
+            stats.count(&format!("{}:cases", engine));
+            if feats.nontrivial {
+                stats.count(&format!("{}:nontrivial", engine));
+            }
+            for c in feats.classes.iter() {
+                stats.count(&format!("{}:{}", engine, c));
+            }
+            Ok(())
+        }
+        Err(m) => Err(m),
+    });
+    if let Some(h) = harness_err.into_inner() {
+        return CheckOutcome { violation: None, inconclusive: Some(h) };
+    }
+    if let Some(a) = res.aborted {
+        return CheckOutcome { violation: None, inconclusive: Some(format!("proptest aborted: {}", a)) };
+    }
+    match res.failure {
+        None => CheckOutcome { violation: None, inconclusive: None },
+        Some((case, msg)) => {
+            let path = write_replay(prop, engine, &case, &msg);
+            CheckOutcome { violation: Some((msg, path)), inconclusive: None }
+        }
+    }
+}
+
+pub struct CompPart {
+    pub engine: &'static str,
+    pub quick: u32,
+    pub thorough: u32,
+}
+
+pub fn comp_parts(id: &str) -> Vec<CompPart> {
+    match id {
+        "C07" => vec![CompPart { engine: "policy", quick: 40_000, thorough: 1_500_000 }],
+        "C13" => vec![
+            CompPart { engine: "sketch", quick: 20_000, thorough: 600_000 },
+            CompPart { engine: "tiny", quick: 20_000, thorough: 600_000 },
+        ],
+        "C14" => vec![CompPart { engine: "bloom", quick: 12_000, thorough: 300_000 }],
+        "C18" => vec![CompPart { engine: "keys", quick: 20_000, thorough: 400_000 }],
+        "C17" => vec![CompPart { engine: "hist", quick: 20_000, thorough: 400_000 }],
+        _ => vec![],
+    }
+}
+
+pub fn run_comp_part(prop: &str, part: &CompPart, tier: &str, seed: u64, stats: &Stats) -> CheckOutcome {
+    let n = if tier_is_thorough(tier) { part.thorough } else { part.quick };
+    match part.engine {
+        "policy" => run_comp(prop, "policy", comp::policy_strategy, comp::run_policy, n, seed, stats),
+        "sketch" => run_comp(prop, "sketch", comp::sketch_strategy, comp::run_sketch, n, seed, stats),
+        "tiny" => run_comp(prop, "tiny", comp::tiny_strategy, comp::run_tiny, n, seed, stats),
+        "bloom" => run_comp(prop, "bloom", comp::bloom_strategy, comp::run_bloom, n, seed, stats),
+        "keys" => run_comp(prop, "keys", comp::key_strategy, comp::run_keys, n, seed, stats),
+        "hist" => run_comp(prop, "hist", comp::hist_strategy, comp::run_hist, n, seed, stats),
+        _ => unreachable!(),
+    }
+}
+
+pub fn replay_comp(engine: &str, case: serde_json::Value) -> Option<Result<(), String>> {
+    fn go<C: serde::de::DeserializeOwned>(case: serde_json::Value, f: fn(&C) -> Result<CompFeats, String>) -> Result<(), String> {
+        let c: C = serde_json::from_value(case).map_err(|e| format!("bad replay case: {}", e))?;
+        f(&c).map(|_| ())
+    }
+    Some(match engine {
+        "policy" => go(case, comp::run_policy),
+        "sketch" => go(case, comp::run_sketch),
+        "tiny" => go(case, comp::run_tiny),
+        "bloom" => go(case, comp::run_bloom),
+        "keys" => go(case, comp::run_keys),
+        "hist" => go(case, comp::run_hist),
+        _ => return None,
+    })
+}
+
+pub fn comp_rule(id: &str) -> (&'static str, &'static [&'static str]) {
+    match id {
+        "C07" => (
+            "parked policy (facade): generated resident set (0-12 keys, costs 1-11, budget = total + 0..19), popularity shaped by generated lookup batches, optional in-place cost updates / changed max_cost, then one add(key, cost); oracle from estimates read before the add plus the per-round observer; non-trivial = the add found no room; distinct by case hash",
+            &["estimates do not change during add (no concurrent policy worker in this engine)", "tie-breaking and sampling order are left free"],
+        ),
+        "C13" => (
+            "count-min sketch and TinyLFU through the facade: widths 1..=70, 100, 127-129, 1000, 4096; structured hash palettes (random, small ints, high-bits-only, low-bits-only, equal modulo 2^k, extremes); ops increment / reset / clear; oracle = ideal exact counters with saturation and halving; non-trivial = a counter saturated, two hashes shared a counter, a reset happened or the aging window was crossed; distinct by case hash",
+            &["the sketch rows are seeded from the (virtual) clock second at construction"],
+        ),
+        "C14" => (
+            "bloom filter through the facade: capacity 1..5000 (biased to small and 2^k+-1), rate in {0.001,0.01,0.05,0.1,0.3}; structured hash sets; ops add / contains_or_add / reset / clear, membership checked after every op; statistical part: n random hashes into a filter built for n, 4000 fresh probes, fail above 4pm+5sqrt(pm)+8; non-trivial = membership ops on a structured set, or a false-positive measurement (n>=50); distinct by case hash",
+            &["the false-positive bound is claimed for uniformly random hashes only"],
+        ),
+        _ => ("", &[]),
+    }
 }
